@@ -172,20 +172,49 @@ def build(scene, state=None, assemble=True, options=None, names=None, extra=None
         B.frames.append(fr)
         add(fr)
 
+    # Cosserat rods (dynamic scenes): reference configuration = the plan's straight placement;
+    # a state override carries the rod's own coordinates and velocities
+    from .rods import build_rod
+
+    B.rods = []
+    for i, rd in enumerate(scene.get("rods", [])):
+        st = (state or {}).get("rods", {}).get(i)
+        rod = build_rod(
+            rd["spec"],
+            r0=rd["r0"],
+            A0=rot.quat_to_mat(rd["p0"]),
+            q0=None if st is None else st["q"],
+            u0=rd.get("u0") if st is None else st["u"],
+            name=nm("rod", i, f"rod{i}"),
+        )
+        B.rods.append(rod)
+        add(rod)
+
     def ref(x):
         if x == "origin":
             return system.origin
-        kind, i = x
-        return B.bodies[i] if kind == "body" else B.frames[i]
+        kind, i = x[0], x[1]
+        return {"body": B.bodies, "frame": B.frames, "rod": B.rods}[kind][i]
+
+    def ref_xi(x):
+        return float(x[2]) if x != "origin" and x[0] == "rod" else None
+
+    def rod_pose(i, xi, which):
+        rod = B.rods[i]
+        q = rod.Q if which == "plan" else rod.q0
+        qe = q[rod.local_qDOF_P(xi)]
+        return rod.r_OP(0.0, qe, xi), rod.A_IB(0.0, qe, xi)
 
     def ref_pose(x, which, t):
         """(r, A) of a subsystem at plan pose (which='plan') or current pose."""
         if x == "origin":
             return np.zeros(3), np.eye(3)
-        kind, i = x
+        kind, i = x[0], x[1]
         if kind == "body":
             r, A, _, _, _ = (plan_pose if which == "plan" else now_pose)[i]
             return r, A
+        if kind == "rod":
+            return rod_pose(i, float(x[2]), which)
         fm = B.frame_motions[i]
         return fm.r(t), fm.A(t)
 
@@ -202,15 +231,20 @@ def build(scene, state=None, assemble=True, options=None, names=None, extra=None
             AJ = A1n @ (A1p.T @ AJ)
         ty = jt["type"]
         name = nm("joint", j, f"j{j}")
+        xi = {}
+        if ref_xi(jt["a"]) is not None:
+            xi["xi1"] = ref_xi(jt["a"])
+        if ref_xi(jt["b"]) is not None:
+            xi["xi2"] = ref_xi(jt["b"])
         if ty == "revolute":
             a0 = jt.get("angle0", 0.0)
             if state is not None and j in state.get("angle0", {}):
                 a0 = state["angle0"][j]
-            c = Revolute(s1, s2, axis=jt["axis"], angle0=a0, r_OJ0=rJ, A_IJ0=AJ, name=name)
+            c = Revolute(s1, s2, axis=jt["axis"], angle0=a0, r_OJ0=rJ, A_IJ0=AJ, name=name, **xi)
         elif ty == "spherical":
-            c = Spherical(s1, s2, r_OJ0=rJ, name=name)
+            c = Spherical(s1, s2, r_OJ0=rJ, name=name, **xi)
         elif ty == "rigid":
-            c = RigidConnection(s1, s2, r_OJ0=rJ, A_IJ0=AJ, name=name)
+            c = RigidConnection(s1, s2, r_OJ0=rJ, A_IJ0=AJ, name=name, **xi)
         elif ty == "prismatic":
             c = Prismatic(s1, s2, axis=jt["axis"], r_OJ0=rJ, A_IJ0=AJ)
             c.name = name
@@ -286,6 +320,14 @@ def build(scene, state=None, assemble=True, options=None, names=None, extra=None
             add(c)
 
     for k, fo in enumerate(scene.get("forces", [])):
+        if "rod" in fo:
+            vec = np.array(fo["vec"], dtype=float)
+            s = scalar_fun(fo.get("time", "const"), fo.get("w", 1.0))
+            cls = {"force": Force, "b_force": B_Force, "moment": Moment, "b_moment": B_Moment}[fo["type"]]
+            c = cls((lambda t, vec=vec, s=s: vec * s(t)), B.rods[fo["rod"]], xi=float(fo["xi"]), name=nm("force", k, f"force{k}"))
+            B.forces.append(c)
+            add(c)
+            continue
         body = B.bodies[fo["body"]]
         vec = np.array(fo["vec"], dtype=float)
         s = scalar_fun(fo.get("time", "const"), fo.get("w", 1.0))
